@@ -1,3 +1,13 @@
+/- C11: a truncated message is always rejected. -/
 import FinProto.Obl.Side
+import FinProto.Props.RoundTrip
 namespace FinProto.Obl
+open FinProto
+
+theorem C11_mirror : Gen.env.mirrorOK = true := gen_mirrorOK
+theorem C11_repo {f ty : Nat} {v v' : Val} {w : Bytes} {k : Nat}
+    (hc : canonTy Gen.env f ty v = true) (he : encTy Gen.env f ty v [] = .ok (v', w)) (hlt : k < w.length) :
+    decTy Gen.env f ty (w.take k) = .err :=
+  truncated_rejected Gen.env gen_mirrorOK gen_keysOK gen_widthsOK hc he hlt
+
 end FinProto.Obl
